@@ -414,4 +414,210 @@ theorem handleStartTLS_keeps {a0 : A} {s : S} (h : Good a0 s) (hcl : s.c.closed 
         rw [uc]
         simp [abs, hs]
 
+/-! ### DATA: between the start of the backend call and the reset that ends the transaction the monitor is in
+its "transfer" state although the connection's `bdat` field (chunked transfers only) is empty -/
+
+structure GoodT (a0 : A) (s : S) : Prop where
+  tr : Order.run s.cfg a0 s.evs.reverse = .ok { abs s.c with transfer := true }
+  shape : Shape s.c
+  sess : ∃ id, s.c.session = some id
+  nobdat : s.c.bdat = none
+
+theorem GoodT.closed {a0 : A} {s : S} (h : GoodT a0 s) : s.c.closed = false := by
+  obtain ⟨id, hid⟩ := h.sess
+  cases hc : s.c.closed with
+  | false => rfl
+  | true => have := h.shape.closedSess hc; rw [hid] at this; cases this
+
+theorem GoodT.extend {a0 : A} {s s' : S} (h : GoodT a0 s) (new : List Ev)
+    (hcfg : s'.cfg = s.cfg) (hev : s'.evs = new.reverse ++ s.evs)
+    (hrun : Order.run s.cfg { abs s.c with transfer := true } new = .ok { abs s'.c with transfer := true })
+    (hshape : Shape s'.c) (hsess : ∃ id, s'.c.session = some id) (hb : s'.c.bdat = none) : GoodT a0 s' := by
+  refine ⟨?_, hshape, hsess, hb⟩
+  rw [hcfg, hev, List.reverse_append, List.reverse_reverse, Order.run_append, h.tr]
+  exact hrun
+
+/-- changing fields neither the monitor nor the shape looks at -/
+theorem GoodT.of_c {a0 : A} {s s' : S} (h : GoodT a0 s) (hcfg : s'.cfg = s.cfg) (hev : s'.evs = s.evs)
+    (hc : s'.c = s.c) : GoodT a0 s' :=
+  h.extend [] hcfg (by simp [hev]) (by simp [Order.run, hc]) (by rw [hc]; exact h.shape) (by rw [hc]; exact h.sess)
+    (by rw [hc]; exact h.nobdat)
+
+theorem write_goodT {a0 : A} {s : S} (h : GoodT a0 s) (bs : Bytes) : GoodT a0 (write s bs) := by
+  have hc := h.closed
+  refine h.extend [.w bs] (by simp) (by simp [write_evs, hc]) ?_ (by simpa using h.shape) (by simpa using h.sess)
+    (by simpa using h.nobdat)
+  simp [Order.run, Order.step, abs, hc]
+
+theorem replyB_goodT {a0 : A} {s : S} (h : GoodT a0 s) (code : Nat) (enh : Enh) (t : List Bytes) :
+    GoodT a0 (replyB s code enh t) := write_goodT h _
+
+theorem panicLog_goodT {a0 : A} {s : S} (h : GoodT a0 s) : GoodT a0 (emit s .panicLog) := by
+  refine h.extend [.panicLog] rfl rfl ?_ (by simpa using h.shape) (by simpa using h.sess) (by simpa using h.nobdat)
+  simp [Order.run, Order.step, abs]
+
+theorem writeLmtpStatuses_goodT {a0 : A} (sts : List (Bytes × BRes)) : ∀ {s : S}, GoodT a0 s →
+    GoodT a0 (writeLmtpStatuses s sts) ∧ (writeLmtpStatuses s sts).cfg = s.cfg ∧ (writeLmtpStatuses s sts).c = s.c := by
+  induction sts with
+  | nil => intro s h; exact ⟨h, rfl, rfl⟩
+  | cons x xs ih =>
+    intro s h
+    obtain ⟨a, r⟩ := x
+    simp only [writeLmtpStatuses, List.foldl_cons] at ih ⊢
+    have h1 := replyB_goodT h (dataStatus r).1 (dataStatus r).2.1 ["<".b ++ a ++ "> ".b ++ (dataStatus r).2.2]
+    obtain ⟨i1, i2, i3⟩ := ih h1
+    exact ⟨i1, by rw [i2]; simp, by rw [i3]; simp⟩
+
+theorem abortBdat_none (s : S) (h : s.c.bdat = none) : abortBdat s = s := by
+  unfold abortBdat; simp [h]
+
+@[simp] theorem setW_cfg (s : S) (w : Wire.W) : (setW s w).cfg = s.cfg := rfl
+@[simp] theorem setW_c (s : S) (w : Wire.W) : (setW s w).c = s.c := rfl
+@[simp] theorem setW_evs (s : S) (w : Wire.W) : (setW s w).evs = s.evs := rfl
+
+@[simp] theorem resetConn_cfg (s : S) : (resetConn s).cfg = s.cfg := by
+  unfold resetConn clearEnvelope resetSess
+  have := (abortBdat_spec s).2.1
+  split <;> simpa using this
+
+@[simp] theorem closeConn_cfg (s : S) : (closeConn s).cfg = s.cfg := by
+  unfold closeConn closeSock logoutSess
+  have := (abortBdat_spec s).2.1
+  split <;> split <;> simpa using this
+
+@[simp] theorem writeLmtpStatuses_cfg (sts : List (Bytes × BRes)) : ∀ (s : S), (writeLmtpStatuses s sts).cfg = s.cfg := by
+  induction sts with
+  | nil => intro s; rfl
+  | cons x xs ih =>
+    intro s
+    simp only [writeLmtpStatuses, List.foldl_cons] at ih ⊢
+    rw [ih]; simp
+
+theorem goodT_setW {a0 : A} {s : S} (h : GoodT a0 s) (w : Wire.W) : GoodT a0 (setW s w) := h.of_c rfl rfl rfl
+theorem goodT_setDrec {a0 : A} {s : S} (h : GoodT a0 s) (k : Nat) (f : DRec → DRec) : GoodT a0 (setDrec s k f) :=
+  h.of_c rfl rfl rfl
+
+theorem writeLmtpStatuses_goodT' {a0 : A} {s : S} (h : GoodT a0 s) (sts : List (Bytes × BRes)) :
+    GoodT a0 (writeLmtpStatuses s sts) := (writeLmtpStatuses_goodT sts h).1
+
+/-- the reset that ends a synchronous transfer -/
+theorem resetConn_of_goodT {a0 : A} {s : S} (h : GoodT a0 s) : Good a0 (resetConn s) := by
+  obtain ⟨id, hid⟩ := h.sess
+  have hc := h.closed
+  unfold resetConn
+  rw [abortBdat_none s h.nobdat]
+  have e2 : resetSess s = emit s (.reset id) := by unfold resetSess; simp [hid]
+  rw [e2]
+  unfold clearEnvelope
+  refine ⟨?_, ?_⟩
+  · show Order.run s.cfg a0 ((Ev.reset id :: s.evs).reverse) = _
+    rw [List.reverse_cons, Order.run_append, h.tr]
+    simp [Order.run, Order.step, abs, hid, h.nobdat]
+  · simp only [emit_c]
+    exact ⟨h.shape.closedSess, fun _ hf => by simp at hf, fun hb => by simp [h.nobdat] at hb,
+      fun _ hn => by simp [hid] at hn⟩
+
+/-- `Close` during a synchronous transfer (a panic in an LMTP delivery) -/
+theorem closeConn_of_goodT {a0 : A} {s : S} (h : GoodT a0 s) : Good a0 (closeConn s) := by
+  obtain ⟨id, hid⟩ := h.sess
+  have hc := h.closed
+  unfold closeConn
+  rw [abortBdat_none s h.nobdat]
+  have e2 : logoutSess s = { emit s (.logout id) with c := { s.c with session := none } } := by
+    unfold logoutSess; simp [hid]
+  rw [e2]
+  unfold closeSock
+  simp only [hc, Bool.false_eq_true, if_false]
+  refine ⟨?_, ?_⟩
+  · show Order.run s.cfg a0 ((Ev.close :: Ev.logout id :: s.evs).reverse) = _
+    rw [List.reverse_cons, List.reverse_cons, List.append_assoc, Order.run_append, h.tr]
+    simp [Order.run, Order.step, abs, hid, hc]
+  · simp only [emit_c]
+    exact ⟨fun _ => rfl, fun hh => by simp at hh, fun hh => by simp [h.nobdat] at hh, fun hh => by simp at hh⟩
+
+theorem dataFinishSmtp_keeps {a0 : A} {s : S} (h : GoodT a0 s) (k : Nat) (r1 : DataReader.DR) (octets : Bytes)
+    (e : RdEnd) (dec : DataDec) : Keeps a0 s (dataFinishSmtp s k r1 octets e dec).1 := by
+  unfold dataFinishSmtp
+  simp only []
+  split
+  · exact ⟨resetConn_of_goodT (goodT_setDrec h _ _), by simp⟩
+  · exact ⟨resetConn_of_goodT (replyB_goodT (goodT_setW (goodT_setDrec h _ _) _) _ _ _), by simp⟩
+
+theorem dataFinishLmtpPlain_keeps {a0 : A} {s : S} (h : GoodT a0 s) (k : Nat) (r1 : DataReader.DR) (octets : Bytes)
+    (e : RdEnd) (dec : DataDec) : Keeps a0 s (dataFinishLmtpPlain s k r1 octets e dec).1 := by
+  unfold dataFinishLmtpPlain
+  simp only []
+  split
+  · exact ⟨resetConn_of_goodT (goodT_setDrec h _ _), by simp⟩
+  · exact ⟨resetConn_of_goodT (writeLmtpStatuses_goodT' (goodT_setW (goodT_setDrec h _ _) _) _), by simp⟩
+
+theorem dataFinishLmtpSess_keeps {a0 : A} {s : S} (h : GoodT a0 s) (k : Nat) (r1 : DataReader.DR) (octets : Bytes)
+    (e : RdEnd) (dec : DataDec) : Keeps a0 s (dataFinishLmtpSess s k r1 octets e dec).1 := by
+  unfold dataFinishLmtpSess
+  rcases hp : applyStatuses s.c.recipients dec.statuses [] with ⟨q, okCalls⟩
+  cases okCalls with
+  | false =>
+    simp only [Bool.false_eq_true, if_false, beq_self_eq_true, if_true]
+    exact ⟨(resetConn_good (closeConn_of_goodT (writeLmtpStatuses_goodT' (panicLog_goodT (goodT_setDrec h _ _)) _))).1,
+      by simp⟩
+  | true =>
+    simp only [if_true]
+    split
+    · exact ⟨(resetConn_good (closeConn_of_goodT (writeLmtpStatuses_goodT' (panicLog_goodT (goodT_setDrec h _ _)) _))).1,
+        by simp⟩
+    · exact ⟨resetConn_of_goodT (writeLmtpStatuses_goodT' (goodT_setW (goodT_setDrec h _ _) _) _), by simp⟩
+
+theorem dataSync_keeps {a0 : A} {s : S} (h : Good a0 s) (id : Nat) (hid : s.c.session = some id)
+    (hfrom : s.c.fromReceived = true) (hr : s.c.recipients.isEmpty = false) (hb : s.c.bdat = none) :
+    Keeps a0 s (dataSync s id).1 := by
+  unfold dataSync
+  have hsame := popData_same s
+  rcases hpq : popData s with ⟨dec, s1⟩
+  rw [hpq] at hsame
+  have hg1 : Good a0 s1 := hsame.good h
+  have hc1 : s1.c = s.c := hsame.c
+  -- the call begins: the monitor enters its transfer state
+  have hT : GoodT a0 (emit (beginData s1 id dec).1 (.dataBegin id (beginData s1 id dec).2)) := by
+    refine ⟨?_, by simpa [beginData, hc1] using h.shape, ⟨id, by simp [beginData, hc1, hid]⟩, by simp [beginData, hc1, hb]⟩
+    show Order.run s1.cfg a0 ((Ev.dataBegin id _ :: s1.evs).reverse) = _
+    rw [List.reverse_cons, Order.run_append, hg1.tr]
+    have hne : s.c.recipients.length ≠ 0 := by
+      intro h0; have := List.length_eq_zero_iff.mp h0; simp [this] at hr
+    simp [Order.run, Order.step, abs, beginData, hc1, hid, hfrom, hb, hne]
+  have hcfg : (emit (beginData s1 id dec).1 (.dataBegin id (beginData s1 id dec).2)).cfg = s.cfg := by
+    have : s1.cfg = s.cfg := hsame.cfg
+    simp [beginData, this]
+  simp only []
+  split
+  · exact ⟨(dataFinishSmtp_keeps (goodT_setW hT _) _ _ _ _ _).1,
+      by rw [(dataFinishSmtp_keeps (goodT_setW hT _) _ _ _ _ _).2]; simpa using hcfg⟩
+  · split
+    · exact ⟨(dataFinishLmtpPlain_keeps (goodT_setW hT _) _ _ _ _ _).1,
+        by rw [(dataFinishLmtpPlain_keeps (goodT_setW hT _) _ _ _ _ _).2]; simpa using hcfg⟩
+    · exact ⟨(dataFinishLmtpSess_keeps (goodT_setW hT _) _ _ _ _ _).1,
+        by rw [(dataFinishLmtpSess_keeps (goodT_setW hT _) _ _ _ _ _).2]; simpa using hcfg⟩
+
+theorem handleData_keeps {a0 : A} {s : S} (h : Good a0 s) (arg : Bytes) : Keeps a0 s (handleData s arg).1 := by
+  unfold handleData
+  split
+  · exact keeps_reply h _ _ _
+  split
+  · exact keeps_reply h _ _ _
+  rename_i hb
+  have hb : s.c.bdat = none := by simpa using hb
+  split
+  · exact keeps_reply h _ _ _
+  split
+  · exact keeps_reply h _ _ _
+  rename_i hfr
+  simp only [Bool.or_eq_true, Bool.not_eq_true', not_or, Bool.not_eq_false] at hfr
+  have hg1 := reply_good h 354 noEnh "Go ahead. End your data with <CR><LF>.<CR><LF>"
+  simp only []
+  split
+  · have hr := resetConn_good hg1
+    exact ⟨hr.1, by rw [hr.2.2]; simp⟩
+  · rename_i id hid
+    have hk := dataSync_keeps hg1 id (by simpa using hid) (by simpa using hfr.1) (by simpa using hfr.2) (by simpa using hb)
+    exact ⟨hk.1, by rw [hk.2]; simp⟩
+
 end SmtpV.Server
